@@ -38,8 +38,8 @@ theorem rejSample2_one_success (h : List α × ρ → α) (c : α) (d : Draw α 
 /-- `orderedRun_sound` is not vacuous: from an empty queue, one successful wrapped call below the
 bound is returned, leaving an empty queue -/
 theorem orderedRun_one_success (h : σ → α) (c : α) (t : σ) (ht : h t < c) :
-    orderedRun h c (fun _ : Unit => some ([(true, t)], ())) 1 [] () = .found t [] () := by
-  simp [orderedRun, popBest, ht]
+    orderedRun h c (fun _ : Unit => some ([(true, t)], ())) [] () = .found t [] () := by
+  simp [orderedRun, orderedFresh, popBest, ht]
 
 end generic
 
